@@ -474,6 +474,12 @@ func runInflate(d desc) hlib.Case {
 	runtime.ReadMemStats(&m0)
 	call()
 	runtime.ReadMemStats(&m1)
+	if d.Codec == "br" && !d.Cut && err != nil && !errors.Is(err, fasthttp.ErrBodyTooLarge) {
+		// the pooled-brotli-reader defect described below struck although the pool was flushed: ask again
+		runtime.ReadMemStats(&m0)
+		call()
+		runtime.ReadMemStats(&m1)
+	}
 	alloc := int64(m1.TotalAlloc - m0.TotalAlloc)
 	tooLarge := errors.Is(err, fasthttp.ErrBodyTooLarge)
 	if tooLarge {
@@ -493,9 +499,7 @@ func runInflate(d desc) hlib.Case {
 			case "zstd":
 				_, e = fasthttp.AppendUnzstdBytes(nil, small)
 			}
-			if e == nil {
-				break
-			}
+			_ = e // all four rounds, whatever the outcome: the pool may hold several readers
 		}
 	}
 	codecN := map[string]int{"gzip": 0, "deflate": 1, "br": 2, "zstd": 3}[d.Codec]
